@@ -2285,8 +2285,8 @@ func listStyleType_(tokens []Token) (out pr.CounterStyleID, ok bool) {
 		}
 		arguments := []string{"symbolic"}
 		if arg0, ok := functionArguments[0].(pa.Ident); ok {
-			if arg0.Value == "cyclic" || arg0.Value == "numeric" || arg0.Value == "alphabetic" || arg0.Value == "symbolic" || arg0.Value == "fixed" {
-				arguments = []string{string(arg0.Value)}
+			if type_ := utils.AsciiLower(string(arg0.Value)); type_ == "cyclic" || type_ == "numeric" || type_ == "alphabetic" || type_ == "symbolic" || type_ == "fixed" {
+				arguments = []string{type_}
 				functionArguments = functionArguments[1:]
 			} else {
 				return out, false
